@@ -558,7 +558,8 @@ pub fn run(tier: &str) -> i32 {
     }
     let cfg = Config::default();
     // omodel over the whole space
-    let texts: Vec<Option<String>> = par_map(&progs, |p| generate(&p.src, &cfg).ok().map(|s| s.to_string()));
+    let outcomes: Vec<Outcome> = par_map(&progs, |p| generate(&p.src, &cfg));
+    let texts: Vec<Option<String>> = outcomes.iter().map(|o| o.ok().map(|s| s.to_string())).collect();
     let model_results: Vec<Vec<String>> = {
         let pairs: Vec<(&Prog, &Option<String>)> = progs.iter().zip(texts.iter()).collect();
         par_map(&pairs, |(p, t)| match t {
@@ -572,7 +573,8 @@ pub fn run(tier: &str) -> i32 {
         rep.max_depth = rep.max_depth.max(p.vars.len() as u64);
         rep.evaluations += 1;
         if t.is_none() {
-            rep.filtered("generator not Ok");
+            let class = outcomes.iter().zip(progs.iter()).find(|(_, q)| q.key == p.key).map(|(o, _)| o.class()).unwrap_or_default();
+            rep.generation_failed(p.key.clone(), &class, &p.src, &cfg);
             continue;
         }
         rep.nontrivial.insert(hash64(&p.src));
